@@ -22,6 +22,23 @@ def header_version(coin, cls, rng):
                        rng.randrange(t + 1, 2 ** 32), rng.randrange(t + 1, 2 ** 32), rng.randrange(t + 1, t + 0x1000)])
 
 
+def spk_of_len(n, rng):
+    """a script of exactly n bytes: a standard template when one has that length (so that address columns are exercised)"""
+    if n == 25:
+        return btc.p2pkh(rng.randbytes(20))
+    if n == 23:
+        return btc.p2sh(rng.randbytes(20))
+    if n == 35:
+        return btc.p2pk(b'\x03' + rng.randbytes(32))
+    if n == 22:
+        return b'\x00\x14' + rng.randbytes(20)
+    return rng.randbytes(n)
+
+
+# sizes used when shapes are dumped through csvdump: the small class becomes a template length
+CHAIN_SIZES = [{'z': 0, 's': 25, 'm': 253, 'l': 65536}, {'z': 0, 's': 23, 'm': 300, 'l': 65536}, {'z': 0, 's': 35, 'm': 253, 'l': 65536}]
+
+
 def mk_tx(shape, rng, sizes=REP, cb=False, idx=0):
     ins = []
     for k, c in enumerate(shape['ins']):
@@ -30,7 +47,7 @@ def mk_tx(shape, rng, sizes=REP, cb=False, idx=0):
         if shape['seg']:
             i['wit'] = [rng.randbytes(sizes[x]) for x in shape['wit'][k]]
         ins.append(i)
-    outs = [{'val': rng.choice([0, 1, 2 ** 31, 2 ** 32 - 1, 2 ** 63, 2 ** 64 - 1, rng.randrange(2 ** 64)]), 'spk': rng.randbytes(sizes[c])}
+    outs = [{'val': rng.choice([0, 1, 2 ** 31, 2 ** 32 - 1, 2 ** 63, 2 ** 64 - 1, rng.randrange(2 ** 64)]), 'spk': spk_of_len(sizes[c], rng)}
             for c in shape['outs']]
     return {'ver': rng.choice([1, 2, 0, 2 ** 31, 2 ** 32 - 1]), 'ins': ins, 'outs': outs,
             'lock': rng.choice([0, idx, 2 ** 32 - 1, rng.randrange(2 ** 32)]), 'segwit': shape['seg']}
